@@ -1,5 +1,8 @@
 use crate::ast::{BinaryOp, Commented, Expr, RecordEntry, RecordKey, SpannedExpr};
-use crate::ast_to_source::{expr_to_source, format_record_key, needs_parens_in_binop};
+use crate::ast_to_source::{
+    ChildPosition, expr_to_source, format_record_key, lambda_body_needs_parens, needs_parens,
+    needs_parens_in_binop,
+};
 use crate::values::LambdaArg;
 
 const DEFAULT_MAX_COLUMNS: usize = 80;
@@ -57,12 +60,18 @@ fn format_single_line(expr: &SpannedExpr) -> String {
             } else {
                 format!("({})", args_str.join(", "))
             };
-            format!("{} => {}", args_part, format_single_line(body))
+            let body_str = format_single_line(body);
+            if lambda_body_needs_parens(body) {
+                format!("{} => ({})", args_part, body_str)
+            } else {
+                format!("{} => {}", args_part, body_str)
+            }
         }
         Expr::Call { func, args } => {
-            let func_str = match &func.node {
-                Expr::Lambda { .. } => format!("({})", format_single_line(func)),
-                _ => format_single_line(func),
+            let func_str = if needs_parens(func, ChildPosition::Postfix) {
+                format!("({})", format_single_line(func))
+            } else {
+                format_single_line(func)
             };
             let args_str: Vec<String> = args.iter().map(format_single_line).collect();
             format!("{}({})", func_str, args_str.join(", "))
@@ -278,6 +287,12 @@ fn format_lambda(args: &[LambdaArg], body: &SpannedExpr, max_cols: usize, indent
         format!("({}) =>", args_str.join(", "))
     };
 
+    // A body with `via` / `into` / `where` at its top level has to be parenthesised
+    if lambda_body_needs_parens(body) {
+        let body_formatted = format_expr_impl(body, max_cols, indent);
+        return format!("{} ({})", args_part, body_formatted);
+    }
+
     // Special handling for do blocks - keep "=> do {" together
     if let Expr::DoBlock { .. } = &body.node {
         let body_formatted = format_expr_impl(body, max_cols, indent);
@@ -360,9 +375,9 @@ fn format_conditional_multiline(
         {
             let else_if_part =
                 format_conditional_multiline(else_cond, else_then, else_else, max_cols, indent);
+            // The grammar does not allow a line break right after `if`
             format!(
-                "if\n{}{}\n{}then\n{}{}\n{}else {}",
-                make_indent(inner_indent),
+                "if {}\n{}then\n{}{}\n{}else {}",
                 format_expr_impl(condition, max_cols, inner_indent),
                 make_indent(indent),
                 make_indent(inner_indent),
@@ -371,9 +386,9 @@ fn format_conditional_multiline(
                 else_if_part
             )
         } else {
+            // The grammar does not allow a line break right after `if`
             format!(
-                "if\n{}{}\n{}then\n{}{}\n{}else\n{}{}",
-                make_indent(inner_indent),
+                "if {}\n{}then\n{}{}\n{}else\n{}{}",
                 format_expr_impl(condition, max_cols, inner_indent),
                 make_indent(indent),
                 make_indent(inner_indent),
@@ -393,9 +408,10 @@ fn format_call_multiline(
     max_cols: usize,
     indent: usize,
 ) -> String {
-    let func_str = match &func.node {
-        Expr::Lambda { .. } => format!("({})", format_expr_impl(func, max_cols, indent)),
-        _ => format_expr_impl(func, max_cols, indent),
+    let func_str = if needs_parens(func, ChildPosition::Postfix) {
+        format!("({})", format_expr_impl(func, max_cols, indent))
+    } else {
+        format_expr_impl(func, max_cols, indent)
     };
 
     if args.is_empty() {
